@@ -1,14 +1,17 @@
 #!/usr/bin/env python3
-"""Writes mutation/SUMMARY.md from mutation/results.jsonl (first pass) and mutation/retest.jsonl (survivors re-run later)."""
+"""Writes mutation/SUMMARY.md from mutation/results.jsonl (first pass) and mutation/retest.jsonl / retest2.jsonl (survivors re-run later)."""
 import json, collections, os
 R = "/verif/mutation/"
 first = {}
 for l in open(R + "results.jsonl"):
     r = json.loads(l); first[r["id"]] = r
 retest = {}
-if os.path.exists(R + "retest.jsonl"):
-    for l in open(R + "retest.jsonl"):
-        r = json.loads(l); retest[r["id"]] = r
+for name in ("retest.jsonl", "retest2.jsonl"):  # (later passes win: retest2 was run with the checks as of round 8)
+    if os.path.exists(R + name):
+        for l in open(R + name):
+            r = json.loads(l)
+            if r.get("status") != "stale" or r["id"] not in retest:
+                retest[r["id"]] = r
 total = sum(1 for _ in open(R + "mutants.jsonl"))
 st = collections.Counter(r["status"] for r in first.values())
 by = collections.Counter(r.get("caught_by") for r in first.values() if r["status"] == "caught")
@@ -22,14 +25,16 @@ for k in ("stillborn", "killed-by-suite", "caught", "survived-all", "stale"):
     if st.get(k): lines.append(f"| {k} | {st[k]} |")
 lines.append("\n`stillborn` = does not compile / vet; `killed-by-suite` = the library's own unedited tests fail (says nothing about the checks); `caught` = a quick check reported a violation; `survived-all` = the quick checks that observe the mutated file stayed silent.\n")
 lines.append("Caught by (first check in relevance order that reported): " + ", ".join(f"{k}: {v}" for k, v in sorted(by.items())) + "\n")
-lines.append(f"Of the {len(surv)} first-pass survivors, {len(later)} were re-run after strengthenings and are caught now (mutation/retest.jsonl); the remaining ones were read one by one and are equivalent with respect to the listed properties or outside them (DESIGN.md section 7.3 lists the classes).\n")
+rerun = [r for r in surv if r["id"] in retest]
+stale = [r for r in surv if retest.get(r["id"], {}).get("status") == "stale"]
+lines.append(f"Of the {len(surv)} first-pass survivors, {len(rerun)} have been re-run with later versions of the checks (mutation/retest.jsonl, retest2.jsonl): {len(later)} are caught now, {len(stale)} no longer apply to the source (the lines were changed by the repairs of F18 / F19); the remaining ones were read one by one and are equivalent with respect to the listed properties or outside them (DESIGN.md section 7.3 lists the classes).\n")
 lines.append("## First-pass survivors\n")
 lines.append("| id | file:line | function | mutation | status after strengthening |\n|---|---|---|---|---|")
 for r in sorted(surv, key=lambda r: (r["file"], r["line"])):
     rt = retest.get(r["id"])
     status = ""
     if rt:
-        status = "caught by " + str(rt.get("caught_by")) if rt["status"] == "caught" else "re-run: still silent"
+        status = "caught by " + str(rt.get("caught_by")) if rt["status"] == "caught" else ("no longer applies" if rt["status"] == "stale" else "re-run: still silent")
     o = r["orig"].replace("\n", " ").replace("|", "\\|")[:40]; n = r["repl"].replace("\n", " ").replace("|", "\\|")[:30]
     lines.append(f"| {r['id']} | {r['file']}:{r['line']} | {r['fn']} | {r['kind']}: `{o}` -> `{n}` | {status} |")
 open(R + "SUMMARY.md", "w").write("\n".join(lines) + "\n")
